@@ -4,6 +4,8 @@ import CoercionModel.Proofs.Flush
 import CoercionModel.Generated.F9
 import CoercionModel.Model.Skeletons
 import CoercionModel.Generated.F10
+import CoercionModel.Proofs.Translated
+import CoercionModel.Proofs.FixIdem
 set_option linter.unusedSimpArgs false
 /-
   C10 — Recovery converges to the same consistent terminal outcome.
@@ -128,5 +130,19 @@ example : route (fixPlanStatus { blocks := [.notStarted, .notStarted] }) = .star
 theorem facts_skeleton :
     Generated.F10.recovery = Skeletons.recovery := by
   decide
+
+/-- the predicates `fixPlan` uses on check groups, translated from recovery.go on every run, are the ones
+    `fixPlanStatus` is written with -/
+theorem translated_checksFailed (o : Option Checks) : Generated.T1.checksFailedOpt o = isFailed (o.map (·.status)) := Translated.checksFailed_eq o
+theorem translated_checksCompleted (o : Option Checks) : Generated.T1.checksCompletedOpt o = isDone (o.map (·.status)) := Translated.checksCompleted_eq o
+
+/-! ### a second recovery: the repair is idempotent -/
+
+/-- repairing a repaired object changes nothing — what a later recovery (after a crash during or after
+    the first one, fix da35c40 persists the repair) computes from the first one's result is that result -/
+theorem repair_idempotent_action (a : Action) : fixAction (fixAction a) = fixAction a := Fix.fixAction_idem a
+theorem repair_idempotent_checks (c : Checks) : Fix.fixChecks (Fix.fixChecks c) = Fix.fixChecks c := Fix.fixChecks_idem c
+theorem repair_idempotent_sequence (now now' : Nat) (q : Sequence) :
+    Fix.fixSeqFull now' (Fix.fixSeqFull now q) = Fix.fixSeqFull now q := Fix.fixSeqFull_idem now now' q
 
 end Coercion.C10
